@@ -134,6 +134,19 @@ def catalogue(F, NF, nn):
         add("nn.functional." + name, lambda a, dt, f=getattr(NF, name): f(a[0], 2), [T(*shape)])
         lay = "".join(w.capitalize() for w in name.split("_"))          # max_pool1d -> MaxPool1d
         add("nn." + lay, lambda a, dt, m=getattr(nn, lay): m(2)(a[0]), [T(*shape)])
+    # the geometry arguments select different code paths (padding with a fill value, dilation, stride != kernel): dtype must not depend on them
+    for name, shape in (("max_pool1d", (2, 3, 6)), ("avg_pool1d", (2, 3, 6)), ("max_pool2d", (2, 3, 5, 5)), ("avg_pool2d", (2, 3, 5, 5))):
+        for pat, (k, s_, p_, d_) in (("k2,s1,pad1", (2, 1, 1, 1)), ("k2,s2,dil2", (2, 2, 0, 2)), ("k3,s2,pad1,dil1", (3, 2, 1, 1))):
+            add("nn.functional." + name, lambda a, dt, f=getattr(NF, name), k=k, s_=s_, p_=p_, d_=d_: f(a[0], k, s_, p_, d_), [T(*shape)], pat)
+    for name, shape in (("max_pool1d", (2, 3, 5)), ("avg_pool1d", (2, 3, 7)), ("max_pool2d", (2, 3, 5, 5)), ("avg_pool2d", (2, 3, 7, 5))):
+        add("nn.functional." + name, lambda a, dt, f=getattr(NF, name): f(a[0], 2), [T(*shape)], "k2,default stride,windows do not tile the input")
+    add("nn.functional.fold", lambda a, dt: NF.fold(a[0], (5, 5), (2, 2), 1, 2), [T(1, 8, 4)], "stride2,output not tiled")
+    add("nn.functional.unfold", lambda a, dt: NF.unfold(a[0], (2, 2), 1, 1, 1), [T(1, 2, 4, 4)], "pad1")
+    add("nn.functional.unfold", lambda a, dt: NF.unfold(a[0], (2, 2), 1, 1, 1, 0.5), [T(1, 2, 4, 4)], "pad1,pad_value=0.5")
+    add("nn.functional.unfold", lambda a, dt: NF.unfold(a[0], (2, 2), 2, 2, (1, 0)), [T(1, 2, 5, 5)], "dil2,stride2,pad(1,0)")
+    add("nn.functional.fold", lambda a, dt: NF.fold(a[0], (4, 4), (2, 2), 1, 2, 1), [T(1, 8, 9)], "stride2,pad1")
+    add("nn.functional.conv1d", lambda a, dt: NF.conv1d(a[0], a[1], a[2], 1, 2, 2), [T(2, 3, 6), T(4, 3, 2), T(4)], "bias,pad2,dil2")
+    add("nn.functional.conv2d", lambda a, dt: NF.conv2d(a[0], a[1], a[2], (2, 1), (1, 0), (1, 2)), [T(2, 3, 5, 5), T(4, 3, 2, 2), T(4)], "bias,tuple geometry")
     add("nn.functional.unfold", lambda a, dt: NF.unfold(a[0], (2, 2)), [T(1, 2, 4, 4)])
     add("nn.functional.fold", lambda a, dt: NF.fold(a[0], (4, 4), (2, 2)), [T(1, 8, 9)])
     add("nn.Unfold", lambda a, dt: nn.Unfold((2, 2))(a[0]), [T(1, 2, 4, 4)])
@@ -311,7 +324,8 @@ def grad_histories(run, seed, tier):
     import synapgrad.optim.optimizers as O
     from synapgrad.nn.modules import Parameter, Module
     rng = np.random.RandomState(seed)
-    alphabet = ("bw", "bw_other_dtype", "zero_t", "zero_mod", "zero_opt", "step")
+    # conv_*: the parameters are converted to the other floating dtype (p.data = p.data.astype(...)) and their gradients reset by the named route
+    alphabet = ("bw", "bw_other_dtype", "zero_t", "zero_mod", "zero_opt", "step", "conv_zero_t", "conv_zero_opt")
     maxlen = 4 if tier == "quick" else 5
     for kind in ("SGD", "Adam", "AdamW"):
         for dt in (np.float32, np.float64):
@@ -330,10 +344,20 @@ def grad_histories(run, seed, tier):
                     mod = M()
                     opt = getattr(O, kind)([w, b], lr=0.01, **({"momentum": 0.9} if kind == "SGD" else {}))
                     key = {"optimizer": kind, "dtype": np.dtype(dt).name, "history": list(hist)}
+                    cur = dt
                     for step, ev in enumerate(hist):
                         try:
-                            if ev.startswith("bw"):
-                                xd = dt if ev == "bw" else other
+                            if ev.startswith("conv"):
+                                cur = np.float64 if cur == np.float32 else np.float32
+                                for p_ in (w, b):
+                                    p_.data = p_.data.astype(cur)
+                                if ev == "conv_zero_t":
+                                    w.zero_()
+                                    b.zero_()
+                                else:
+                                    opt.zero_grad()
+                            elif ev.startswith("bw"):
+                                xd = cur if ev == "bw" else (np.float64 if cur == np.float32 else np.float32)
                                 x = Tensor(rng.rand(4, 2).astype(xd))
                                 out = (x @ w + b).sum()
                                 out.backward()
@@ -351,13 +375,13 @@ def grad_histories(run, seed, tier):
                             break
                         run.rt(("grad-history", kind, np.dtype(dt).name, hist, step))
                         bad = [nm for nm, p_, sh in (("w", w, (2, 3)), ("b", b, (3,)))
-                               if p_.data.dtype != dt or p_.data.shape != sh or (p_._grad is not None and (p_._grad.dtype != dt or p_._grad.shape != sh))]
+                               if p_.data.dtype != cur or p_.data.shape != sh or (p_._grad is not None and (p_._grad.dtype != cur or p_._grad.shape != sh))]
                         if bad:
                             p_ = w if bad[0] == "w" else b
-                            api = {"bw": "Tensor.backward", "bw_other_dtype": "Tensor.backward", "zero_t": "Tensor.zero_", "zero_mod": "Module.zero_grad", "zero_opt": "Optimizer.zero_grad",
+                            api = {"bw": "Tensor.backward", "bw_other_dtype": "Tensor.backward", "conv_zero_t": "Tensor.zero_", "conv_zero_opt": "Optimizer.zero_grad", "zero_t": "Tensor.zero_", "zero_mod": "Module.zero_grad", "zero_opt": "Optimizer.zero_grad",
                                    "step": "Optimizer.step"}[ev]
                             run.violation(api + ".grad_has_parameter_dtype_and_shape", "after %s the %s parameter %s has data %s%s and .grad %s%s" %
-                                          (list(hist[:step + 1]), np.dtype(dt).name, bad[0], p_.data.dtype, p_.data.shape, None if p_._grad is None else p_._grad.dtype,
+                                          (list(hist[:step + 1]), np.dtype(cur).name, bad[0], p_.data.dtype, p_.data.shape, None if p_._grad is None else p_._grad.dtype,
                                            None if p_._grad is None else p_._grad.shape), key={**key, "step": step, "event": ev}, replay=key)
                             break
 
